@@ -2,6 +2,7 @@ package legs
 
 import (
 	"math/rand"
+	"strconv"
 	"strings"
 	"unicode"
 	"unicode/utf8"
@@ -59,7 +60,11 @@ func c19Gen(rng *rand.Rand, i int) c19Case {
 	}
 	if i%4 == 3 {
 		// escaped-looking text for the Unescape leg: sprinkle backslash forms
-		forms := []string{`\x`, `\u`, `\c`, `\x{`, `\0`, `\12`, `\777`, `\a`, `\e`, `\_`, `\-`, `\é`, `\`, `}`, `41`, `0041`, `1F600}`}
+		forms := []string{`\x`, `\u`, `\c`, `\x{`, `\0`, `\12`, `\777`, `\a`, `\e`, `\_`, `\-`, `\é`, `\`, `}`, `41`, `0041`, `1F600}`,
+			// forms the pattern parser reads differently from Unescape or differently per option set
+			`\k`, `\k<`, `\k'`, `\k<1`, `\k<a`, `\<`, `\'`, `\<1>`, `\<0`, `\<a>`, `\<a`, `\'a'`, `\1`, `\8`, `\9`, `\10`, `\81`, `\40`, `\400`, `\08`,
+			`\p`, `\pL`, `\P{L}`, `\d`, `\w`, `\S`, `\b`, `\A`, `\z`, `\u{`, `\u{41}`, `\x4`, `\xg`, `\cA`, `\c1`, `\q`, `\Q`, `\x{41}`, `\x{}`, `\x{110000}`,
+			`{1}`, `{1,`, `{1,2}`, `{,2}`, `{`, `#`, ` `, "\n", "\t", `>`, `'`, `2147483648`, `\2147483648`}
 		var sb strings.Builder
 		for _, r := range rs {
 			if rng.Intn(2) == 0 {
@@ -106,10 +111,137 @@ func isWordCharStd(r rune) bool {
 	return unicode.In(r, unicode.L, unicode.Mn, unicode.Nd, unicode.Pc) || r == 0x200d || r == 0x200c
 }
 
+// c19ParseOpts: the option sets under which the tree the parser builds for a pattern is compared with
+// the Lean model of the literal fragment (`EscapeParse.parseWhy`).  The first ten are the option sets of
+// the compile-and-match oracle below (same order as c19Case.Opts).
+var c19ParseOpts = []struct {
+	name string
+	ro   syntax.RegexOptions
+}{
+	{"none", 0},
+	{"x", syntax.IgnorePatternWhitespace},
+	{"ms", syntax.Multiline | syntax.Singleline},
+	{"xns", syntax.IgnorePatternWhitespace | syntax.ExplicitCapture | syntax.Singleline},
+	{"ecma", syntax.ECMAScript},
+	{"re2", syntax.RE2},
+	{"rtl", syntax.RightToLeft},
+	{"ecma+m", syntax.ECMAScript | syntax.Multiline},
+	{"re2+xs", syntax.RE2 | syntax.IgnorePatternWhitespace | syntax.Singleline},
+	{"unicode+rtl+x", syntax.Unicode | syntax.RightToLeft | syntax.IgnorePatternWhitespace},
+	{"ecma+u", syntax.ECMAScript | syntax.Unicode},
+	{"ecma+x", syntax.ECMAScript | syntax.IgnorePatternWhitespace},
+	{"ecma+u+x+rtl", syntax.ECMAScript | syntax.Unicode | syntax.IgnorePatternWhitespace | syntax.RightToLeft},
+	{"re2+rtl", syntax.RE2 | syntax.RightToLeft},
+}
+
+// c19OptsSexp: `(opts (x ecma re2 u) …)` for the Lean driver
+var c19OptsSexp = func() string {
+	parts := make([]string, len(c19ParseOpts))
+	for i, po := range c19ParseOpts {
+		b := func(f syntax.RegexOptions) int {
+			if po.ro&f != 0 {
+				return 1
+			}
+			return 0
+		}
+		parts[i] = core.SInts([]int{b(syntax.IgnorePatternWhitespace), b(syntax.ECMAScript), b(syntax.RE2), b(syntax.Unicode)})
+	}
+	return core.S("opts", parts...)
+}()
+
+// c19Literal: is the parsed tree a pure literal — the implicit root capture over a One, a Multi, an
+// Empty (empty pattern) or a concatenation of those — and which text does it spell.  A right-to-left
+// concatenation lists its children in reverse text order; a Multi keeps its runes in text order.
+func c19Literal(tree *syntax.RegexTree) ([]rune, bool) {
+	root := tree.Root
+	if root == nil || root.T != syntax.NtCapture || len(root.Children) != 1 {
+		return nil, false
+	}
+	var walk func(n *syntax.RegexNode) ([]rune, bool)
+	walk = func(n *syntax.RegexNode) ([]rune, bool) {
+		switch n.T {
+		case syntax.NtOne:
+			if n.Options&syntax.IgnoreCase != 0 {
+				return nil, false
+			}
+			return []rune{n.Ch}, true
+		case syntax.NtMulti:
+			if n.Options&syntax.IgnoreCase != 0 {
+				return nil, false
+			}
+			return append([]rune{}, n.Str...), true
+		case syntax.NtEmpty:
+			return []rune{}, true
+		case syntax.NtConcatenate:
+			out := []rune{}
+			for i := range n.Children {
+				ch := n.Children[i]
+				if n.Options&syntax.RightToLeft != 0 {
+					ch = n.Children[len(n.Children)-1-i]
+				}
+				t, ok := walk(ch)
+				if !ok {
+					return nil, false
+				}
+				out = append(out, t...)
+			}
+			return out, true
+		}
+		return nil, false
+	}
+	return walk(root.Children[0])
+}
+
+// c19ParseGo: what the real parser makes of the pattern under one option set, in the vocabulary of the
+// Lean answer: `(lit (runes))`, `(none error)` (Parse failed) or `(none tree)` (a tree that is not a literal)
+func c19ParseGo(pat string, ro syntax.RegexOptions) string {
+	tree, err := syntax.Parse(pat, syntax.ParseOptions{RegexOptions: ro})
+	if err != nil {
+		return "(none error)"
+	}
+	if t, ok := c19Literal(tree); ok {
+		return core.S("lit", core.SInts(t))
+	}
+	return "(none tree)"
+}
+
+// c19ParseAgree: does the parser's reading agree with the model's answer?  `construct` = outside the
+// modelled fragment (no claim); `nonlit` = the parser must not build a literal, except that a `{0…}`
+// repeat can erase the non-literal unit again; `error` = the parser must fail; `lit` = same literal.
+func c19ParseAgree(lean, goAns, pat string) bool {
+	switch {
+	case lean == "(none construct)":
+		return true
+	case lean == "(none error)":
+		return goAns == "(none error)"
+	case lean == "(none nonlit)":
+		return !strings.HasPrefix(goAns, "(lit") || strings.Contains(pat, "{0")
+	case strings.HasPrefix(lean, "(lit"):
+		return goAns == lean
+	}
+	return false // fuel exhaustion or an unreadable answer
+}
+
 func c19Check(c *core.Ctx, cases []c19Case) []core.Outcome {
 	outs := make([]core.Outcome, len(cases))
 	lines := make([]string, len(cases))
 	goAns := make([]string, len(cases))
+	plines := make([]string, len(cases)) // parse requests (second half of the driver input)
+	pgo := make([][]string, len(cases))  // the real parser's reading per option set
+	ppat := make([]string, len(cases))   // the pattern parsed
+	for i, cs := range cases {
+		// the pattern whose parse is compared: Escape(s) as produced by Go, or the escaped-looking text itself
+		pat := string(cs.Runes)
+		if cs.Mode != "unescape" {
+			pat = syntax.Escape(pat)
+		}
+		ppat[i] = pat
+		plines[i] = core.S("c19", "parse", core.SRunes(pat), c19Rows([]rune(pat)), c19OptsSexp)
+		pgo[i] = make([]string, len(c19ParseOpts))
+		for k, po := range c19ParseOpts {
+			pgo[i][k] = c19ParseGo(pat, po.ro)
+		}
+	}
 	for i, cs := range cases {
 		s := string(cs.Runes)
 		o := &outs[i]
@@ -148,6 +280,20 @@ func c19Check(c *core.Ctx, cases []c19Case) []core.Outcome {
 				got = "error: " + err.Error()
 			}
 			o.Fail = &core.Failure{Kind: "impl-violation", Key: c19Key(cs.Runes, "roundtrip"), Summary: "Unescape(Escape(s)) != s; Escape(s) = " + esc, Expected: core.SRunes(s), Got: got}
+			continue
+		}
+		// Escape(s) is read by the parser as the literal s under every option set (model-free: the real
+		// parser's tree only)
+		want := core.S("lit", core.SInts(cs.Runes))
+		bad := -1
+		for k := range c19ParseOpts {
+			if pgo[i][k] != want {
+				bad = k
+				break
+			}
+		}
+		if bad >= 0 {
+			o.Fail = &core.Failure{Kind: "impl-violation", Key: "notliteral:" + c19ParseOpts[bad].name, Summary: "the parser does not read Escape(s) = " + esc + " as the literal s under options " + c19ParseOpts[bad].name, Expected: want, Got: pgo[i][bad]}
 			continue
 		}
 		// Escape(s) compiles and, anchored, matches exactly s
@@ -216,7 +362,7 @@ func c19Check(c *core.Ctx, cases []c19Case) []core.Outcome {
 			}
 		}
 	}
-	res, err := c.RunDriver(lines)
+	res, err := c.RunDriver(append(append([]string{}, lines...), plines...))
 	if err != nil {
 		for i := range outs {
 			if outs[i].Fail == nil {
@@ -232,9 +378,66 @@ func c19Check(c *core.Ctx, cases []c19Case) []core.Outcome {
 		}
 		if res[i] != goAns[i] {
 			outs[i].Fail = &core.Failure{Kind: "correspondence-break", Key: "model:" + cases[i].Mode, Summary: "Lean model of " + cases[i].Mode + " disagrees with syntax." + strings.Title(cases[i].Mode), Expected: res[i], Got: goAns[i]}
+			continue
+		}
+		// the parser's reading of the pattern vs the model of the literal fragment, per option set
+		lean, ok := c19SplitAnswers(res[len(cases)+i])
+		if !ok || len(lean) != len(c19ParseOpts) {
+			outs[i].Fail = &core.Failure{Kind: "correspondence-break", Key: "model:parse", Summary: "unreadable answer of the Lean driver to a parse request", Expected: "(ok r1 … r" + strconv.Itoa(len(c19ParseOpts)) + ")", Got: res[len(cases)+i]}
+			continue
+		}
+		kinds := map[string]bool{}
+		for k, po := range c19ParseOpts {
+			kind := lean[k]
+			if strings.HasPrefix(kind, "(lit") {
+				kind = "lit"
+			} else {
+				kind = strings.TrimSuffix(strings.TrimPrefix(kind, "(none "), ")")
+			}
+			kinds[kind] = true
+			if !c19ParseAgree(lean[k], pgo[i][k], ppat[i]) && outs[i].Fail == nil {
+				outs[i].Fail = &core.Failure{Kind: "correspondence-break", Key: "model:parse:" + kind, Summary: "Lean model parseLit disagrees with the tree syntax.Parse builds for " + core.SRunes(ppat[i]) + " under options " + po.name, Expected: lean[k], Got: pgo[i][k]}
+			}
+		}
+		for _, kd := range []string{"lit", "construct", "nonlit", "error"} {
+			if kinds[kd] {
+				outs[i].Buckets = append(outs[i].Buckets, "parse-"+cases[i].Mode+"-"+kd)
+			}
+		}
+		if len(kinds) > 1 || lean[0] != lean[4] || lean[0] != lean[5] || lean[0] != lean[1] || lean[4] != lean[10] {
+			outs[i].Buckets = append(outs[i].Buckets, "parse-"+cases[i].Mode+"-option-dependent")
 		}
 	}
 	return outs
+}
+
+// c19SplitAnswers splits `(ok r1 r2 …)` into its top-level elements.
+func c19SplitAnswers(ans string) ([]string, bool) {
+	if !strings.HasPrefix(ans, "(ok") || !strings.HasSuffix(ans, ")") {
+		return nil, false
+	}
+	body := ans[3 : len(ans)-1]
+	var out []string
+	depth, start := 0, -1
+	for i := 0; i < len(body); i++ {
+		switch body[i] {
+		case '(':
+			if depth == 0 {
+				start = i
+			}
+			depth++
+		case ')':
+			depth--
+			if depth == 0 && start >= 0 {
+				out = append(out, body[start:i+1])
+				start = -1
+			}
+			if depth < 0 {
+				return nil, false
+			}
+		}
+	}
+	return out, depth == 0
 }
 
 // c19Key classifies a round-trip failure by the kind of rune that triggers it.
@@ -260,10 +463,22 @@ func init() {
 			{Runes: []rune(`\x41B\cC\x{1F600}\101\e`), Mode: "unescape"},
 			{Runes: []rune(`\u378x`), Mode: "unescape"},
 			{Runes: []rune(`abc\`), Mode: "unescape"},
+			// the parser's reading per option set (EscapeParse.parseWhy): the two seeded mutations
+			// (astral non-printable rune; BEL) and the option-dependent escapes
+			{Runes: []rune{'t', 0xe0001, 0x40000, '{', '2', '}'}, Mode: "escape", Opts: 4},
+			{Runes: []rune("ring\athe bell\x1b41"), Mode: "escape", Opts: 7},
+			{Runes: []rune(`\x{41}\x{f}\u{41}\u{f}`), Mode: "unescape"},
+			{Runes: []rune(`\a\e\_\q\k<1x\<1\<a b\'`), Mode: "unescape"},
+			{Runes: []rune("a b#c\n{2}\\ \\#{x"), Mode: "unescape"},
+			{Runes: []rune(`\101\81\400\777\08\cA\c1`), Mode: "unescape"},
+			{Runes: []rune(`\pL`), Mode: "unescape"},
+			{Runes: []rune(`a\d`), Mode: "unescape"},
+			{Runes: []rune(`\k<a>`), Mode: "unescape"},
+			{Runes: []rune(`\2147483648`), Mode: "unescape"},
 		}
 		core.RunLeg(c, core.Leg[c19Case]{
 			Name: "E", Kind: "correspondence+oracle",
-			Rule:   "random rune strings (40% from a list of metacharacters, whitespace, controls, non-printable BMP/astral and unassigned code points; rest uniform over ASCII / U+0000-07FF / BMP / astral), every 4th case an escaped-looking text for Unescape; non-trivial = non-empty; distinct by (mode,string). Each case: Go Escape/Unescape vs the Lean model, plus the model-free oracle Unescape(Escape(s))=s, Escape(s) compiles under the drawn options and \\A(?:Escape(s))\\z matches s and none of 3 single-rune edits of s",
+			Rule:   "random rune strings (40% from a list of metacharacters, whitespace, controls, non-printable BMP/astral and unassigned code points; rest uniform over ASCII / U+0000-07FF / BMP / astral), every 4th case an escaped-looking text (stray backslash forms: hex, octal, control, reference, class, anchor, property forms, braces, blanks, #); non-trivial = non-empty; distinct by (mode,string). Each case: (1) Go Escape/Unescape vs the Lean model; (2) the tree syntax.Parse builds for the pattern (Escape(s) as produced by Go, or the escaped-looking text) under 14 option sets (none, x, ms, xns, ecma, re2, rtl, ecma+m, re2+xs, unicode+rtl+x, ecma+u, ecma+x, ecma+u+x+rtl, re2+rtl) vs the Lean model of the literal fragment (parseWhy): model says literal t <=> the tree is a concatenation of One/Multi nodes spelling t; model says error => Parse fails; model says non-literal unit => no literal tree; constructs outside the fragment are not compared; (3) the model-free oracle Unescape(Escape(s))=s, the parser reads Escape(s) as the literal s under all 14 option sets, Escape(s) compiles under the drawn options and \\A(?:Escape(s))\\z matches s and none of 3 single-rune edits of s",
 			Corpus: corpus, N: c.N(6000, 300000), Gen: c19Gen, Check: c19Check,
 		})
 	})
